@@ -41,7 +41,7 @@ def describe(tier):
                 "932/933 fulfilled <=> German local time (EU rule in integer arithmetic, R9) is 00:00:00, 934/935 <=> 06:00:00; the verdict "
                 "is the same for every notation of one instant; 931 <=> the written offset is zero; a message is present iff "
                 "unfulfilled; anything that is not a datetime with offset is unfulfilled WITH message; no string raises. Through "
-                "FcEvaluator.evaluate_93x and (critical instants, garbage) through format_constraint_evaluation('[93x]') with the ContextVar "
+                "FcEvaluator.evaluate_93x and (critical instants, garbage) through format_constraint_evaluation('[93x]') - single calls and call SEQUENCES over several constraints in one context in which the text is set once - with the ContextVar "
                 "set. Non-trivial = instants within 2 h of a DST switch or fulfilled instants or non-zero-minute offsets.",
         "bounds": {k: (v if k != "switch_years" else len(v)) for k, v in b.items()},
         "exhaustive": True,
@@ -126,6 +126,35 @@ def check_instant(t, offset, style, keys=("932", "934"), via_expression=False):
                         "msg": f"evaluate_{k}({text!r}); German local second of day = {sod}"})
         elif r[2] != (not exp[k]):
             out.append({"kind": "message-iff-unfulfilled", "case": case, "expected": not exp[k], "observed": r[2], "msg": text})
+    return out
+
+
+def check_sequence(t, offset, style, order):
+    """the text is set ONCE in a context, then the constraints are evaluated one after another in that context (expression entry
+    point): every verdict is the one for this instant, whatever was evaluated before"""
+    I = _I
+    out = []
+    text = B.fmt(t, offset, style)
+    sod = B.german_second_of_day(t)
+    exp = {"932": sod == 0, "933": sod == 0, "934": sod == 21600, "935": sod == 21600, "931": offset == 0}
+
+    async def go():
+        I.text_to_be_evaluated_by_format_constraint.set(text)
+        res = []
+        for k in order:
+            r = await I.format_constraint_evaluation(f"[{k}]")
+            res.append((r.format_constraints_fulfilled, bool(r.error_message)))
+        return res
+
+    r = I.try_call(lambda: I.run(go(), I.Env()))
+    case = {"t": t, "offset": offset, "style": style, "order": list(order), "text": text, "sequence": True}
+    if r[0] == "exc":
+        return [{"kind": "raised", "case": case, "expected": [exp[k] for k in order], "observed": r[1], "msg": text}]
+    for k, (ful, msg) in zip(order, r[1]):
+        if ful is not exp[k]:
+            out.append({"kind": "931-verdict" if k == "931" else "932-935-verdict", "case": dict(case, key=k), "expected": exp[k], "observed": ful,
+                        "msg": f"[{k}] evaluated as number {list(order).index(k) + 1} of {list(order)} on {text!r} in one context"})
+            break
     return out
 
 
@@ -223,6 +252,10 @@ def run_item(item):
             _acc(r, check_instant(t, 0, 6, ("931", "932", "933", "934", "935")))
             _acc(r, check_instant(t, 0, 7, ("931", "932", "933", "934", "935"), via_expression=True))
             _acc(r, check_instant(t, 3600, 0, ("931", "933", "935"), via_expression=True))
+            # call sequences in one context (text set once)
+            for order in (("931", "932", "933", "934", "935"), ("935", "934", "933", "932", "931"), ("934", "932", "934", "932")):
+                _acc(r, check_sequence(t, 0, 0, order))
+                _acc(r, check_sequence(t, 7200, 1, order))
         r.sample({"family": "all notations of critical instants", "year": y, "instants": len(_critical_instants(y)), "offsets": len(offsets)})
     elif fam == "strings":
         if item["what"] == "list":
@@ -258,6 +291,9 @@ def run_item(item):
 
 
 def replay(case):
+    if case.get("sequence"):
+        worker_init()
+        return check_sequence(case["t"], case["offset"], case["style"], tuple(case["order"]))
     worker_init()
     if case.get("minus_zero"):
         res = _call("931", case["text"])
